@@ -789,6 +789,32 @@ def register_until(reg, B4T):
         eng.check(f"{cnl}#lemma.minL_antitone.step", z3.Implies(z3.And(x <= y, y <= s, M(x, s) <= M(x, y)), M(x, s + 1) <= M(x, y)))
         eng.check(f"{cnl}#lemma.minL_range.base", z3.And(FALSE <= M(x, x), M(x, x) <= TRUE))
         eng.check(f"{cnl}#lemma.minL_range.step", z3.Implies(z3.And(x <= y, FALSE <= M(x, y), M(x, y) <= TRUE), z3.And(FALSE <= M(x, y + 1), M(x, y + 1) <= TRUE)))
+        # composition: the operators of sem4 are monotone for the refinement order, so a tree of monitors that refine sem4 class by
+        # class (over children that refine) refines sem4 as a whole.  until4 is checked for suffixes of length <= 4.
+        def b4s(tag, n):
+            vs = [eng.fresh_int(f"{tag}{k}").e for k in range(n)]
+            return vs, z3.And(*[z3.And(v >= FALSE, v <= TRUE) for v in vs])
+
+        def ref(v, s):
+            return z3.And(*refines(v, s).values())
+
+        (r1, r2), dom_r = b4s("r", 2)
+        (s1, s2), dom_s = b4s("s", 2)
+        hyp = z3.And(dom_r, dom_s, ref(r1, s1), ref(r2, s2))
+        eng.check(f"{cnl}#lemma.refinement_preserved_by_not_and_or", z3.Implies(hyp, z3.And(ref(5 - r1, 5 - s1), ref(zmin(r1, r2), zmin(s1, s2)), ref(zmax(r1, r2), zmax(s1, s2)))))
+        for n in range(1, 5):
+            (Lr, dl1), (Rr, dr1), (Ls, dl2), (Rs, dr2) = b4s("Lr", n), b4s("Rr", n), b4s("Ls", n), b4s("Rs", n)
+            hyp = z3.And(dl1, dr1, dl2, dr2, *[ref(a_, b_) for a_, b_ in zip(Lr + Rr, Ls + Rs)])
+            eng.check(f"{cnl}#lemma.refinement_preserved_by_until", z3.Implies(hyp, ref(until4(Lr, Rr), until4(Ls, Rs))))
+            # the clauses of the UntilMonitor contract (stated over the running minimum) are the refinement of until4
+            v = eng.fresh_int("v").e
+            mins = [zmin_all(Ls[:k]) for k in range(n + 1)]
+            clauses = z3.And(
+                (v >= PT) == z3.Or(*[z3.And(Rs[k] >= PT, mins[k] >= PT) for k in range(n)]),
+                z3.Implies(v == TRUE, z3.Or(*[z3.And(Rs[k] == TRUE, mins[k] == TRUE) for k in range(n)])),
+                z3.Implies(v == FALSE, z3.And(mins[n] == FALSE, *[z3.Or(Rs[k] == FALSE, mins[k] == FALSE) for k in range(n)])),
+            )
+            eng.check(f"{cnl}#lemma.contract_clauses_of_until_are_refinement_of_until4", z3.Implies(z3.And(dl2, dr2, v >= FALSE, v <= TRUE), clauses == ref(v, until4(Ls, Rs))))
 
     reg.add(C.Contract(tgt, params=dict(self=C.Const(None), i=C.Const(None)), setup=setup_lemma, post=post_lemma, properties=("C11",)), key=key)
 
